@@ -154,6 +154,58 @@ CLAIMED = {
         note="Not judged: the exit when no pair of real units is counted; gamma-k with zero mean chance disorder.",
         technique="TLA+ definition evaluated exactly by TLC (BigNat comparison) on recorded alignments; TLC model checking of its algebra",
         design="4/C12"),
+    "C14": dict(
+        text="In the container spec every call changes at most one object of a heap of independent values (TLC: "
+             "OneObjectPerCall, RejectedIsNoOp); computations are the action Compute (heap unchanged), fast-mode gamma the "
+             "action FastGamma (only the input's window size), results the action Derive (a new object of its own). Random "
+             "sessions on real objects mix every public computation entry point (alignments, disorders, gamma in every "
+             "mode, gamma-cat/k, sampler initialisation and draws, corpus generation and shuffling, first windows) with "
+             "later mutations of sources and of returned continua; after every step the projection of every live continuum "
+             "and a digest of every dissimilarity (class, parameters, categories, matrix bytes, component identity/state) is "
+             "judged by TraceContinuum.tla. The transition-graph replay of C13 compares all live objects after each call.",
+        note="measure_best_window_size is a mutator by design. Dissimilarities are observed through a digest, not field by field.",
+        technique="TLA+ heap spec with frame conditions checked by TLC; recorded sessions of the real library trace-validated by TLC",
+        design="4/C14"),
+    "C17": dict(
+        text="Check.tla gives the outcome of both checks as a function of the bag of unitary alignments (TLC: order "
+             "independent, partition implies cover, ok iff IsPartition). TLC enumerates every sequence of <= 3-4 unitary "
+             "alignments over the units of small continua - every bag in every order, valid or with dropped / duplicated / "
+             "moved units - and each is presented as a real Alignment / SoftAlignment to check(), check(continuum) and both "
+             "constructors with check_validity=True, also with slots listed in another order; larger random continua with "
+             "mutated alignments are judged by TraceAlign's partition / cover clauses against the library's verdict.",
+        note="Candidate alignments range over the continuum's own (annotator, unit) pairs; foreign units are not generated.",
+        technique="TLC enumeration of all small cases with the spec's expected outcome, replayed into the code; TLC trace validation for larger ones",
+        design="4/C17"),
+    "C18": dict(
+        text="IO.tla: the CSV field codec over {letter, delimiter, quote, space, LF, CR} composed with the text layer round-trips "
+             "every field of length <= 4-5 (TLC; the pre-fix newline translation is the mutant that must fail), plus the row "
+             "and tier reading rules. TLC enumerates abstract CSV files (all row sequences incl. zero-length / reversed "
+             "segments x discard flag) and tiered files (marks, tier selections, label modes) with the expected continuum; "
+             "the harness writes real CSV / TextGrid / ELAN / RTTM files with odd strings, delimiters and float times, reads "
+             "them through the library and compares; CSV round trips cover every string of length <= 3 over the codec "
+             "alphabet and unicode; random continua round-trip through TraceContinuum.",
+        note="Trusted: csv, pandas (RTTM), textgrid, pympi for their own formats; values those writers cannot carry are not generated.",
+        technique="TLA+ codec and reading rules checked by TLC; TLC-enumerated abstract files replayed through real files",
+        design="4/C18"),
+    "C19": dict(
+        text="Cst.tla models each perturbation per annotator with every random draw as an environment choice; TLC checks for "
+             "all choices: never empty, positive durations, only reference categories, magnitude 0 = copy, and confinement "
+             "as action properties (mutants: no security unit, split keeping the original). The real tool is run on seeded "
+             "references - each perturbation alone and corpus_shuffle under all 32 flag combinations x magnitudes x "
+             "annotator counts/names x include_ref - and TraceCst.tla judges validity and confinement from the corpus "
+             "before and after.",
+        note="Coincidences of independent real draws are not modelled; the zero-length split fallback is a named branch.",
+        technique="TLA+ model of the perturbations model-checked by TLC; recorded tool runs trace-validated by TLC",
+        design="4/C19"),
+    "C20": dict(
+        text="Cli.tla is the decision table options -> effective API configuration over the whole option space (73 728 "
+             "records; TLC: each option changes the field it names; mutant: -d numerical ignored). For the -d x output x -c "
+             "x -k sub-table exhaustively (other options sampled) the tool is run in-process on generated CSV / RTTM files: "
+             "a probe on compute_gamma shows the configuration really used, which must be the spec's, and the printed / "
+             "CSV / JSON numbers must equal those of the API called with that configuration and seed, per input file.",
+        note="pygamma_cmd() is driven in-process (sys.argv), not through the console script. Relative tolerance 1e-6.",
+        technique="TLA+ decision table checked by TLC; TLC-enumerated option records replayed through the CLI and the API",
+        design="4/C20"),
 }
 PENDING = {}
 
